@@ -66,11 +66,15 @@ std::string run_static(const std::vector<u64> & sz, const std::vector<u64> & co)
   for (std::size_t k = 0; k < N; ++k) c[k] = co[k];
   if constexpr (L == 3) {
     typename S::configuration_t cfg; for (std::size_t k = 0; k < N; ++k) cfg[k] = sz[k];
-    return std::to_string(S::calculate_index(c, cfg));
+    // (calculate_index is not part of the field API: if the layer no longer offers it as a static member of this shape, the
+    // position is observed through the layer over identity<size1> instead)
+    if constexpr (requires { S::calculate_index(c, cfg); }) return std::to_string(S::calculate_index(c, cfg));
+    else return run_ident<L, N>(sz, co);
   } else if constexpr (L == 0) {
     return "unsupported";
   } else {
-    return std::to_string(S::calculate_index(c));
+    if constexpr (requires { S::calculate_index(c); }) return std::to_string(S::calculate_index(c));
+    else return run_ident<L, N>(sz, co);
   }
 }
 template <int L, std::size_t N>
